@@ -218,7 +218,7 @@ def check_enum(case, rec):
 
 
 PARTS = [
-    Part("dataflows", cases(), check, n_quick=450, n_thorough=4000),
+    Part("dataflows", cases(), check, n_quick=900, n_thorough=12000),
     Part("named-exhaustive", None, check_enum, n_quick=0, n_thorough=0, enumerate=enum_cases,
          exhaustive_note="13 named expressions (dot, elementwise, copy/transpose, reductions, mat-vec, outer, "
                          "mat-mat, 3-operand products) over shapes M=3,K=4,N=2 on fixed sparse operands "
